@@ -166,13 +166,30 @@ Definition cov_operands (f g : stairsQ) (lo hi : option Qc) (lag : Qc) (lc : lag
 Definition clipped_mean (f : stairsQ) (lo hi : option Qc) : res V :=
   lift_res (clip f lo hi) (fun c => Ok (snd (integral_and_mean c))).
 
-Definition cov_masked (f' g' : stairsQ) (lo hi : option Qc) : res V :=
+(* the property's formula: mean(f'g') - mean(f') mean(g'), every mean over the window *)
+Definition cov_masked_spec (f' g' : stairsQ) (lo hi : option Qc) : res V :=
   lift_res (binop_api (BArith OMul) (OpS f') (OpS g')) (fun fg =>
   lift_res (clipped_mean fg lo hi) (fun mfg =>
   lift_res (clipped_mean f' lo hi) (fun mf =>
   lift_res (clipped_mean g' lo hi) (fun mg => Ok (vsub mfg (vmul mf mg)))))).
 
+(* what statistic.cov computes (repaired, 0a511ae): the mean of the centred product
+   ((f' - mean f') * (g' - mean g')).clip(where).mean(), which does not cancel when the means are large *)
+Definition cov_masked (f' g' : stairsQ) (lo hi : option Qc) : res V :=
+  lift_res (clipped_mean f' lo hi) (fun mf =>
+  lift_res (clipped_mean g' lo hi) (fun mg =>
+  lift_res (binop_api (BArith OSub) (OpS f') (OpC mf)) (fun fc =>
+  lift_res (binop_api (BArith OSub) (OpS g') (OpC mg)) (fun gc =>
+  lift_res (binop_api (BArith OMul) (OpS fc) (OpS gc)) (fun p =>
+  clipped_mean p lo hi))))).
+
+Definition cov_spec (f g : stairsQ) (lo hi : option Qc) (lag : Qc) (lc : lagclip) : res V :=
+  lift_res (cov_operands f g lo hi lag lc) (fun fgh =>
+    let '(f', g', hi') := fgh in cov_masked_spec f' g' lo hi').
+
+(* the closed sides are compared first (explicitly, as corr does), on f and the translated g *)
 Definition cov (f g : stairsQ) (lo hi : option Qc) (lag : Qc) (lc : lagclip) : res V :=
+  if negb (closed_ok f (if Qceqb lag 0 then g else shift g (- lag))) then Err EClosedMismatch else
   lift_res (cov_operands f g lo hi lag lc) (fun fgh =>
     let '(f', g', hi') := fgh in cov_masked f' g' lo hi').
 
